@@ -137,9 +137,45 @@ class SingleFieldSubscriptionsChecker(ValidationVisitor):
     root field.
     """
 
+    def enter_document(self, node):
+        # Last definition of a name wins, like everywhere else in validation.
+        self._fragments = {
+            d.name.value: d
+            for d in node.definitions
+            if isinstance(d, _ast.FragmentDefinition)
+        }
+
+    def _response_keys(self, selection_set, keys, visited):
+        # ``CollectFields`` restricted to the response keys: inline fragments
+        # and fragment spreads are opened (each named fragment once), fields
+        # with the same response key are one entry. Type conditions and
+        # @skip / @include are not evaluated (no variable values here; spreads
+        # that cannot apply are reported by PossibleFragmentSpreadsChecker).
+        fragments = getattr(self, "_fragments", {})
+        for selection in selection_set.selections:
+            if isinstance(selection, _ast.Field):
+                key = (
+                    selection.alias.value
+                    if selection.alias
+                    else selection.name.value
+                )
+                if key not in keys:
+                    keys.append(key)
+            elif isinstance(selection, _ast.InlineFragment):
+                self._response_keys(selection.selection_set, keys, visited)
+            elif isinstance(selection, _ast.FragmentSpread):
+                name = selection.name.value
+                if name in visited:
+                    continue
+                visited.add(name)
+                fragment = fragments.get(name)
+                if fragment is not None:
+                    self._response_keys(fragment.selection_set, keys, visited)
+        return keys
+
     def enter_operation_definition(self, node):
         if node.operation == "subscription":
-            if len(node.selection_set.selections) != 1:
+            if len(self._response_keys(node.selection_set, [], set())) != 1:
                 if node.name:
                     msg = (
                         'Subscription "%s" must select only one top level field.'
